@@ -53,6 +53,9 @@ func init() {
 	mutant(&Mutant{Name: "c20-remove-backup-before-close", Property: "C20", File: "cmd/minify/main.go",
 		Old: "\t_, err = io.Copy(fw, w)\n\tfr.Close()\n\tfw.Close()\n", New: "\t_, err = io.Copy(fw, w)\n\tfr.Close()\n\tdefer fw.Close()\n",
 		Rule: "R20.3", Construct: "remove backup"})
+	mutant(&Mutant{Name: "c20-samefile-by-name", Property: "C20", File: "cmd/minify/io.go",
+		Old: "\tfi2, err := os.Stat(filename2)\n", New: "\tfi2, err := os.Lstat(filename2)\n",
+		Rule: "R20.6", Construct: "SameFile"})
 	mutant(&Mutant{Name: "c20-removes-source-in-sync", Property: "C20", File: "cmd/minify/main.go",
 		Old: "\t\tpreserveAttributes(srcs, t.root, t.dst)\n\t\tInfo.Printf(\"copy %v to %v\", srcName, dstName)\n", New: "\t\tpreserveAttributes(srcs, t.root, t.dst)\n\t\tos.Remove(t.srcs[0])\n\t\tInfo.Printf(\"copy %v to %v\", srcName, dstName)\n",
 		Rule: "R20.4", Construct: "os.Remove"})
@@ -65,6 +68,9 @@ func init() {
 	mutant(&Mutant{Name: "c19-failure-reported-as-success", Property: "C19", File: "cmd/minify/main.go",
 		Old: "\t\tError.Printf(\"cannot minify %v: %v\", srcName, err)\n\t\tsuccess = false\n", New: "\t\tError.Printf(\"cannot minify %v: %v\", srcName, err)\n",
 		Rule: "R19.1", Construct: "fallback"})
+	mutant(&Mutant{Name: "c19-sync-copy-error-ignored", Property: "C19", File: "cmd/minify/main.go",
+		Old: "\t\tfr.Close()\n\t\tfw.Close()\n\t\tif err != nil {\n\t\t\tError.Println(err)\n\t\t\treturn false\n\t\t}\n\t\tpreserveAttributes", New: "\t\tfr.Close()\n\t\tfw.Close()\n\t\tif err != nil {\n\t\t\tError.Println(err)\n\t\t}\n\t\tpreserveAttributes",
+		Rule: "R19.6", Construct: "io.Copy(fw, fr)"})
 	mutant(&Mutant{Name: "c19-stop-at-first-failure", Property: "C19", File: "cmd/minify/main.go",
 		Old: "\t\tfor _, task := range tasks {\n\t\t\tif ok := minify(task); !ok {\n\t\t\t\tfails++\n\t\t\t}\n\t\t}\n\t} else {", New: "\t\tfor _, task := range tasks {\n\t\t\tif ok := minify(task); !ok {\n\t\t\t\tfails++\n\t\t\t\tbreak\n\t\t\t}\n\t\t}\n\t} else {",
 		Rule: "R19.2", Construct: "run/task loop"})
@@ -137,6 +143,73 @@ func runC20(c *Ctx) {
 	c.r203(x)
 	c.r204()
 	c.r205(x, "R20.5")
+	c.r206(x)
+}
+
+// R20.6: the overwrite detection identifies files the way the truncating open resolves them.
+func (c *Ctx) r206(x *cliCtx) {
+	const rule = "R20.6"
+	c.R.Rule(rule, "openOutputFile opens its path with os.OpenFile, which follows symbolic links; the overwrite detection must therefore identify files after following links too: in cmd/minify.SameFile both os.FileInfo values handed to os.SameFile are results of os.Stat / (*os.File).Stat on the two parameters (os.Lstat only on the result of filepath.EvalSymlinks). With an identity test that does not follow links, `minify -o link.js real.js` (link.js → real.js) is not recognised as overwriting and the only copy is truncated without a backup")
+	pk, info := x.pk, x.info
+	fd := c.fn(rule, pk, "SameFile")
+	if fd == nil {
+		return
+	}
+	construct := "main.SameFile/identity after following symlinks"
+	calls := findCalls(info, fd.Body, false, "os.SameFile")
+	if len(calls) != 1 {
+		c.R.Bad(rule, construct, c.pos(fd), "SameFile does not decide through exactly one os.SameFile call")
+		return
+	}
+	params := map[string]bool{}
+	for _, f := range fd.Type.Params.List {
+		for _, n := range f.Names {
+			params[n.Name] = true
+		}
+	}
+	var bad []string
+	seen := map[string]bool{}
+	for _, a := range calls[0].Args {
+		id, ok := ast.Unparen(a).(*ast.Ident)
+		if !ok {
+			bad = append(bad, "argument "+str(a)+" is not a local")
+			continue
+		}
+		def := c.singleDef(pk, id)
+		call, ok := def.(*ast.CallExpr)
+		if !ok {
+			bad = append(bad, id.Name+" has no single defining call")
+			continue
+		}
+		cn := calleeName(info, call)
+		switch cn {
+		case "os.Stat":
+			if len(call.Args) == 1 && params[str(call.Args[0])] {
+				seen[str(call.Args[0])] = true
+			} else {
+				bad = append(bad, "os.Stat is not applied to a parameter: "+str(call))
+			}
+		case "os.(File).Stat":
+			seen[id.Name] = true
+		case "os.Lstat":
+			if ev := isCall(info, ast.Unparen(call.Args[0]), "path/filepath.EvalSymlinks"); ev != nil {
+				seen[str(ev.Args[0])] = true
+			} else {
+				bad = append(bad, id.Name+" comes from os.Lstat, which does not follow symbolic links")
+			}
+		default:
+			bad = append(bad, id.Name+" comes from "+cn)
+		}
+	}
+	if len(bad) == 0 && len(seen) != 2 {
+		bad = append(bad, "the two compared FileInfo values do not stem from the two parameters")
+	}
+	c.R.Check(len(bad) == 0, rule, construct, c.pos(calls[0]), "both sides stat'ed following links", strings.Join(bad, "; "))
+	// and the overwrite detection in minify() uses this function (R20.1 anchors on it), openOutputFile uses os.OpenFile
+	if ofd := c.fn(rule, pk, "openOutputFile"); ofd != nil {
+		opens := findCalls(info, ofd.Body, true, "os.OpenFile", "os.Create")
+		c.R.Check(len(opens) >= 1, rule, "main.openOutputFile/opens by path (follows links)", c.pos(ofd), "os.OpenFile", "openOutputFile no longer opens by path; the identity rule's premise changed")
+	}
 }
 
 func (c *Ctx) outputOpen(rule string, x *cliCtx) *flow.Node {
@@ -793,6 +866,49 @@ func runC19(c *Ctx) {
 	c.r204()
 	c.r194(x)
 	c.r205(x, "R19.5")
+	c.r196(x)
+}
+
+// R19.6: a failed write of the destination is a failure of the task.
+func (c *Ctx) r196(x *cliCtx) {
+	const rule = "R19.6"
+	c.R.Rule(rule, "in cmd/minify.minify the error of every io.Copy into the output file is bound, and no path from a non-nil outcome of that error — nor any path that never tests it — reaches a `return success` / `return true` with success still true: a destination that could not be written completely must not be reported as minified (exit status 0)")
+	g, info := x.g, x.info
+	o := c.outputOpen(rule, x)
+	if o == nil {
+		return
+	}
+	fwName := ""
+	if as, ok := o.Stmt.(*ast.AssignStmt); ok {
+		fwName = str(as.Lhs[0])
+	}
+	k := 0
+	for _, n := range x.nodesCalling("io.Copy") {
+		call := findCalls(info, n.Ast(), false, "io.Copy")[0]
+		if str(call.Args[0]) != fwName {
+			continue
+		}
+		k++
+		construct := fmt.Sprintf("main.minify/write error of io.Copy(%s, %s) reported", fwName, str(call.Args[1]))
+		e := assignedErr(info, n, call)
+		if e == nil {
+			c.R.Bad(rule, construct, c.pos(call), "the error of writing the destination is discarded")
+			continue
+		}
+		// a "good" return: success / true
+		goodRet := func(y *flow.Node) bool {
+			r := retStmt(y)
+			return r != nil && len(r.Results) == 1 && (str(r.Results[0]) == "true" || str(r.Results[0]) == "success")
+		}
+		markFail := func(y *flow.Node) bool {
+			rhs, ok := assignsTo(y, func(l ast.Expr) bool { return str(l) == "success" })
+			return ok && str(rhs) == "false"
+		}
+		// paths from the copy to a good return that avoid both the nil outcome of the error and a failure mark
+		p := g.Path(flow.Search{From: []*flow.Node{n}, Goal: goodRet, Avoid: func(y *flow.Node) bool { return errOutcome(info, y, e, true) || markFail(y) || returnsFalse(y) }})
+		c.R.Check(p == nil, rule, construct, c.pos(call), "a failed write marks the task as failed", "the destination write can fail (disk full, I/O error) and the task is still reported as successful, exit status 0, with a truncated destination: "+pathStr(c, g, p))
+	}
+	c.R.Floor(rule, "copies into the output file", k, 2)
 }
 
 func (c *Ctx) r191(x *cliCtx) {
